@@ -10,6 +10,7 @@ import (
 	"bufio"
 	"context"
 	"encoding/json"
+	"errors"
 	"fmt"
 	"io"
 	"os"
@@ -663,21 +664,21 @@ func (t *stdioClientTransport) close() error {
 		p = &stdioProcess{}
 	}
 
-	// Close pipes
+	// Close pipes. Once the process has exited, cmd.Wait has closed them already: that is not a failure.
 	if p.stdin != nil {
-		if err := p.stdin.Close(); err != nil {
+		if err := p.stdin.Close(); err != nil && !errors.Is(err, os.ErrClosed) {
 			errs = append(errs, fmt.Errorf("failed to close stdin: %w", err))
 		}
 	}
 
 	if p.stdout != nil {
-		if err := p.stdout.Close(); err != nil {
+		if err := p.stdout.Close(); err != nil && !errors.Is(err, os.ErrClosed) {
 			errs = append(errs, fmt.Errorf("failed to close stdout: %w", err))
 		}
 	}
 
 	if p.stderr != nil {
-		if err := p.stderr.Close(); err != nil {
+		if err := p.stderr.Close(); err != nil && !errors.Is(err, os.ErrClosed) {
 			errs = append(errs, fmt.Errorf("failed to close stderr: %w", err))
 		}
 	}
